@@ -1216,6 +1216,75 @@ impl RawUniverse for CastlePlay {
     }
 }
 
+/// Ray-filling universe: the mover's king on a few squares; on ONE of the eight rays from the king,
+/// every way of placing up to `max` pieces from a menu (own N B R P, enemy N B R Q) on the squares of
+/// that ray — checks, pins, batteries, shadowed sliders, a checker with the mover's own piece and a
+/// second slider behind it, and so on, in every order and at every distance.
+pub struct RayFill {
+    pub kings: Vec<Sq>,
+    pub max: usize,
+}
+const RAY_MENU: [(Kind, bool); 8] = [(Kind::N, true), (Kind::B, true), (Kind::R, true), (Kind::P, true), (Kind::N, false), (Kind::B, false), (Kind::R, false), (Kind::Q, false)];
+impl RayFill {
+    fn rec(p: &Pos, ray: &[Sq], from: usize, left: usize, c: Col, f: &mut dyn FnMut(Pos)) {
+        f(p.clone());
+        if left == 0 {
+            return;
+        }
+        for i in from..ray.len() {
+            let s = ray[i];
+            if p.sq[s as usize].is_some() {
+                continue;
+            }
+            for (k, own) in RAY_MENU {
+                if k == Kind::P && (refmodel::rank_of(s) == 0 || refmodel::rank_of(s) == 7) {
+                    continue;
+                }
+                let mut q = p.clone();
+                put(&mut q, s, k, if own { c } else { c.other() });
+                Self::rec(&q, ray, i + 1, left - 1, c, f);
+            }
+        }
+    }
+}
+impl RawUniverse for RayFill {
+    fn name(&self) -> String {
+        format!("S-RAY(kings={},pieces<={})", self.kings.len(), self.max)
+    }
+    fn bounds(&self) -> Value {
+        json!({"mover_king_squares": self.kings, "mover_colours": 2, "rays": 8, "pieces_on_the_ray": format!("0..{} from own N B R P / enemy N B R Q, every subset of squares, every assignment", self.max), "enemy_king": "first far square off the ray"})
+    }
+    fn parts(&self) -> usize {
+        self.kings.len() * 2 * 8
+    }
+    fn part(&self, i: usize, f: &mut dyn FnMut(Pos)) {
+        let c = Col::ALL[i % 2];
+        let d = DIRS8[(i / 2) % 8];
+        let k = self.kings[i / 16];
+        let mut ray = Vec::new();
+        let mut cur = k;
+        while let Some(n) = refmodel::step(cur, d.0, d.1) {
+            ray.push(n);
+            cur = n;
+        }
+        if ray.is_empty() {
+            return;
+        }
+        let ek = [63u8, 56, 7, 0, 62, 57, 6, 1].into_iter().find(|&e| {
+            !ray.contains(&e) && ((refmodel::file_of(e) as i32 - refmodel::file_of(k) as i32).abs() > 1 || (refmodel::rank_of(e) as i32 - refmodel::rank_of(k) as i32).abs() > 1)
+        });
+        let ek = match ek {
+            Some(e) => e,
+            None => return,
+        };
+        let mut base = Pos::empty();
+        base.stm = c;
+        put(&mut base, k, Kind::K, c);
+        put(&mut base, ek, Kind::K, c.other());
+        Self::rec(&base, &ray, 0, self.max, c, f);
+    }
+}
+
 /// Battery universe: the side NOT to move has its king on a few squares; the mover owns FIVE
 /// rook-movers (or five bishop-movers) standing on that king's lines — every 5-subset of the
 /// squares of those lines at distance >= 2 — each line screened by one piece next to the king (an
